@@ -11,6 +11,7 @@ from ..r_alias import rule_retry_flush as _rule_retry_flush
 from ..r_stereo import rule_pair_key_symmetry as _rule_pair_key
 from ..r_codebooks import rule_allene_reference_choice as _rule_allene_ref
 from ..r_rdkit import rule_import_revalidates as _rule_import_reval
+from ..r_round9 import rule_reader_full_neighbour_list as _r9_nl, rule_prune_condition as _r9_prune, rule_cis_trans_terminal_keys as _r9_ctk
 
 LEVEL = 'other'
 
@@ -36,3 +37,6 @@ def run(ck, repo):
     _rule_pair_key(ck, repo, 'C12.D6-pair-key-symmetry')
     _rule_allene_ref(ck, repo, 'C12.D3-allene-reference')
     _rule_import_reval(ck, repo, 'C12.D4-import-revalidates')
+    _r9_nl(ck, repo, 'C12.D6-reader-full-neighbour-list')
+    _r9_prune(ck, repo, 'C12.D6-prune-condition')
+    _r9_ctk(ck, repo, 'C12.D6-cis-trans-terminal-keys')
